@@ -200,4 +200,22 @@ Section SessionProofs.
     destruct (Nat.ltb len 256); [|intros H; discriminate].
     intros H. injection H as <- <- <-. cbn. repeat split.
   Qed.
+  (* ... and the application's queue of delivered, not yet collected downlinks is not touched by a frame that is not accepted
+     (rejected, or oversized) *)
+  Theorem rejected_frame_keeps_the_downlink_queue s cf rg bytes maxp snr ignore_mac depth q o :
+    fcnt_ok s -> bytes_ok bytes = true ->
+    (forall n, ~ spec_accepts s bytes maxp n) ->
+    handle_rx_session enc mac_fn s cf rg bytes maxp snr ignore_mac = Val o ->
+    dl_queue_push depth q (ro_downlink o) = q.
+  Proof.
+    intros Hf Hb Hna H.
+    assert (D : oversized bytes maxp \/ ~ oversized bytes maxp).
+    { unfold oversized. destruct (wf_wire bytes) eqn:W; [|right; intros [A _]; discriminate].
+      destruct (Compare_dec.lt_dec (N.to_nat maxp + 5) (length bytes)) as [L|L]; [left; split; [reflexivity|exact L]|right; intros [_ B]; exact (L B)]. }
+    destruct D as [Ho|Hno].
+    - rewrite (oversized_is_timeout s cf rg bytes maxp snr ignore_mac Ho) in H. destruct ignore_mac.
+      + injection H as <-. reflexivity.
+      + destruct (rx2_complete_session s cf (rg_id rg)) as [[s' cf'] resp]. injection H as <-. reflexivity.
+    - rewrite (reject_is_identity s cf rg bytes maxp snr ignore_mac Hf Hb Hna Hno) in H. injection H as <-. reflexivity.
+  Qed.
 End SessionProofs.
